@@ -155,7 +155,7 @@ func (g *c04Rand) stmt(d int) string {
 	case r < 60:
 		h := g.pick("v in range(1, 3)", "v in range(3, 1, -1)", "v in range(2)", "v in range(2, 2)", "v in [1, 2, 3]", "v in []",
 			"[k, v] in m", "v in range(0, 5, 2)", "v in range(5, 0, -2)", "v in 7", "[k, v] in [[1, 2], [3, 4]]",
-			"[k, v] in [1]", "[k, v] in m2", "v in m")
+			"[k, v] in [1]", "[k, v] in m2", "v in m", "v in range(3, 1)", "v in range(0, 3, -1)", "v in range(1, 2, 0.5)")
 		g.loops++
 		s := "for " + h + " " + g.block(d)
 		g.loops--
@@ -205,7 +205,7 @@ func (g *c04Rand) program(depth int) string {
 
 func init() {
 	register("C04", &Prop{
-		Timeout: 20 * time.Second,
+		Timeout: 6 * time.Second,
 		Setup:   evSetup,
 		Gen: func(g *Gen) {
 			lz := NewEvLazy(g)
@@ -262,14 +262,26 @@ func init() {
 				}
 			}
 			// (3) if and loop families
+			// ranges: every sign combination of (to - from, step) incl. fractional steps and equal bounds
+			// (a step pointing away from the end gives an empty range); step 0 never ends and is left out
+			steps := []string{"", ", 1", ", 2", ", -1", ", -2", ", 3", ", 0.5", ", -0.5", ", 1.5", ", -1.5"}
+			rangeLoop := func(a, b int, st string) string {
+				return fmt.Sprintf("for i in range(%d, %d%s) {\nx.mark(i)\n}", a, b, st)
+			}
 			for _, a := range []int{-2, 0, 1, 3} {
 				for _, b := range []int{-2, 0, 1, 3, 4} {
-					for _, st := range []string{"", ", 1", ", 2", ", -1", ", -2", ", 3"} {
-						if (st == "" || st[2] != '-') && a > b || (st != "" && st[2] == '-') && a < b {
-							continue // wrong direction: never ends
-						}
-						emit("range family", fmt.Sprintf("for i in range(%d, %d%s) {\nx.mark(i)\n}\nx.mark(99)", a, b, st))
+					for _, st := range steps {
+						emit("range family", rangeLoop(a, b, st)+"\nx.mark(99)")
 					}
+				}
+			}
+			for _, ab := range [][2]int{{1, 3}, {3, 1}, {2, 2}, {0, -2}, {-2, 0}} {
+				for _, st := range steps {
+					r := rangeLoop(ab[0], ab[1], st)
+					emit("range family in for-in loop", "for k in [7, 8] {\n"+r+"\nx.mark(k)\n}\nx.mark(99)")
+					emit("range family in condition loop", "w := 2\nfor w > 0 {\nw := w - 1\n"+r+"\nx.mark(w)\n}\nx.mark(99)")
+					emit("range family in function", "func f() {\n"+r+"\nreturn 5\n}\nx.mark(f())\nx.mark(f())")
+					emit("range family in range loop and try", "for k in range(1, 2) {\ntry {\n"+r+"\n} finally {\nx.mark(k)\n}\n}\nx.mark(99)")
 				}
 			}
 			conds := []string{"true", "false", "null", "0", "1", `""`, "[]", "1 == 1", "1 > 2"}
